@@ -10,6 +10,8 @@ import NdonnxVerif.Driver.IntArith
 import NdonnxVerif.Driver.Graph
 import NdonnxVerif.Driver.Setitem
 import NdonnxVerif.Driver.ReduceVal
+import NdonnxVerif.Driver.Search
+import NdonnxVerif.Driver.TGraph
 /-! Line-protocol driver: one request per line on stdin, one answer per line on stdout. -/
 open Ndx.Drv
 
@@ -19,6 +21,10 @@ def dispatch (line : String) : String :=
   | cmd :: args =>
     match cmd with
     | "bshape" => cmdBshape args
+    | "tg_render" => cmdTgRender args
+    | "tg_eval" => cmdTgEval args
+    | "tg_parse" => cmdTgParse args
+    | "searchsorted" => cmdSearchsorted args
     | "intop" => cmdIntOp args
     | "gterm" => cmdGterm args
     | "setitem" => cmdSetitem args
